@@ -9,8 +9,8 @@ import json, os
 import vf
 
 PROP = 'C15'
-CFG = {'quick': dict(gen=['gen/MC_C15_q.cfg'], impl='gen/MC_C15impl.cfg', diff='gen/MC_C15diff_q.cfg'),
-       'thorough': dict(gen=['gen/MC_C15_t.cfg', 'gen/MC_C15_t3.cfg'], impl='gen/MC_C15impl_t.cfg', diff='gen/MC_C15diff_t.cfg')}
+CFG = {'quick': dict(gen=['gen/MC_C15_q.cfg', 'gen/MC_C15na_q.cfg'], impl='gen/MC_C15impl.cfg', diff='gen/MC_C15diff_q.cfg'),
+       'thorough': dict(gen=['gen/MC_C15_t.cfg', 'gen/MC_C15_t3.cfg', 'gen/MC_C15na_t.cfg'], impl='gen/MC_C15impl_t.cfg', diff='gen/MC_C15diff_t.cfg')}
 
 
 def sig(r):
